@@ -854,6 +854,16 @@ public:
         seen.insert(M);
         X.processFunction(M);
       }
+    // generic lambda: the call operator is a template, visit its instantiations
+    if (const CXXRecordDecl *R = LE->getLambdaClass())
+      if (!R->isDependentContext())
+        if (FunctionTemplateDecl *FT = R->getDependentLambdaCallOperator())
+          for (FunctionDecl *S : FT->specializations())
+            if (S->isThisDeclarationADefinition() && !S->isDependentContext() && !seen.count(S)) {
+              seen.insert(S);
+              X.processFunction(S);
+              TraverseStmt(S->getBody()); // nested lambdas
+            }
     return true;
   }
   bool VisitCXXRecordDecl(CXXRecordDecl *R) {
